@@ -112,6 +112,11 @@ type Obs struct {
 	RandUsed    int
 	RandOverrun int
 	WallMs      int64
+	// state and wire after the exchange
+	AfterEncrypted bool   // m.encrypted after CreateConnection returned
+	PostReq        string // what one ordinary request (ping) made afterwards did: pong-ok | wrong:<type> | err:<text> | panic:<text> | pending
+	PostPlain      int    // plain frames that request put on the wire
+	HangRetried    bool   // a hang verdict was re-run alone with the long watchdog
 }
 
 func unhex(s string) []byte { return vc.UnHex(s) }
@@ -207,6 +212,9 @@ func runCase(c *Case) Obs {
 		done <- r
 	}()
 	watchdog := 20 * time.Second
+	if v, err := strconv.Atoi(os.Getenv("C06_WATCHDOG_S")); err == nil && v > 0 {
+		watchdog = time.Duration(v) * time.Second
+	}
 	rejected := make(chan struct{})
 	go func() {
 		srv.Wait(watchdog, func(r hsserver.Result) bool { return false })
@@ -245,20 +253,44 @@ func runCase(c *Case) Obs {
 	o.RandUsed, o.RandOverrun = script.pos, script.overrun
 	script.mu.Unlock()
 
-	if o.Class == "ok" {
-		go func() {
-			vc.Catch(func() { _, _ = m.MakeRequest(&objects.PingParams{PingID: c.PingID}) })
-		}()
-		srv.Wait(15*time.Second, func(r hsserver.Result) bool { return r.EncSeen >= 1 })
-	} else {
-		// give a misbehaving client the chance to send something it should not
-		time.Sleep(30 * time.Millisecond)
-	}
+	// the client's state right after CreateConnection returned
 	if o.Class != "hang" {
+		var h []byte
+		o.AfterEncrypted, _, h, _, _ = m.VerifSessionState()
 		o.ClientKey = vc.Hex(m.GetAuthKey())
-		_, _, h, _, _ := m.VerifSessionState()
 		o.ClientHash = vc.Hex(h)
 		o.ClientSalt = vc.Hex(hsserver.U64(uint64(m.GetServerSalt())))
+	}
+	// one ordinary request on the same client: after success it must be sent encrypted, be readable by the server
+	// and be answered (rpc_result{pong}); after an abandoned exchange nothing encrypted may reach the wire
+	if o.Class != "hang" {
+		post := make(chan string, 1)
+		go func() {
+			var resp interface{}
+			var err error
+			p, pv := vc.Catch(func() { resp, err = m.MakeRequest(&objects.PingParams{PingID: c.PingID}) })
+			switch {
+			case p:
+				post <- "panic:" + tail(fmt.Sprint(pv), 120)
+			case err != nil:
+				post <- "err:" + tail(err.Error(), 120)
+			default:
+				if pong, ok := resp.(*objects.Pong); ok && pong.PingID == c.PingID {
+					post <- "pong-ok"
+				} else {
+					post <- fmt.Sprintf("wrong:%T", resp)
+				}
+			}
+		}()
+		wait := 250 * time.Millisecond
+		if o.Class == "ok" {
+			wait = 15 * time.Second
+		}
+		select {
+		case o.PostReq = <-post:
+		case <-time.After(wait):
+			o.PostReq = "pending"
+		}
 	}
 	if s, err := session.NewFromFile(sess).Load(); err == nil && s != nil {
 		hostOK := "host-other"
@@ -277,6 +309,12 @@ func runCase(c *Case) Obs {
 			o.Frames = append(o.Frames, vc.Hex(e.Bytes))
 		case "send-plain":
 			o.Replies = append(o.Replies, vc.Hex(e.Bytes))
+		case "send-err":
+			o.Replies = append(o.Replies, "!err404")
+		case "close":
+			o.Replies = append(o.Replies, "!closed")
+		case "recv-plain-post":
+			o.PostPlain++
 		case "recv-enc":
 			if o.EncPacket == "" {
 				o.EncPacket = vc.Hex(e.Bytes)
@@ -401,6 +439,8 @@ func tail(s string, n int) string {
 	return s
 }
 
+var hangRetries, hangsConfirmed int
+
 func supervise(cs []Case, outdir string) []Obs {
 	casesPath := filepath.Join(outdir, "cases.jsonl")
 	f, _ := os.Create(casesPath)
@@ -453,6 +493,27 @@ func supervise(cs []Case, outdir string) []Obs {
 			o = Obs{ID: cs[i].ID, Class: "harness-error", ErrText: "no observation"}
 		}
 		obs[i] = o
+	}
+	// a "hang" (20 s watchdog while 12 workers share the machine and SplitPQ is a clock-seeded Pollard rho) is
+	// CONFIRMED before it counts: the case is run again, alone, with a 120 s limit
+	for i := range obs {
+		if obs[i].Class != "hang" {
+			continue
+		}
+		hangRetries++
+		os.Setenv("C06_WATCHDOG_S", "120")
+		r := superviseRange(casesPath, cs, i, i+1, fmt.Sprintf("retry%d", i))
+		os.Unsetenv("C06_WATCHDOG_S")
+		o2, ok := r[i]
+		if !ok {
+			continue
+		}
+		o2.HangRetried = true
+		if o2.Class == "hang" {
+			hangsConfirmed++
+			o2.ErrText += " (confirmed: the case was run a second time, alone, with a 120 s limit)"
+		}
+		obs[i] = o2
 	}
 	of, _ := os.Create(filepath.Join(outdir, "obs.jsonl"))
 	ow := bufio.NewWriter(of)
@@ -527,6 +588,14 @@ func (t *oracle) split(n, p, q *big.Int) {
 	t.add("split\t" + zhex(n) + "\t" + zhex(p) + "\t" + zhex(q))
 }
 
+// replyBytes: the body of a logged reply; nil for the markers of a transport error frame / a closed connection
+func replyBytes(r string) []byte {
+	if strings.HasPrefix(r, "!") {
+		return nil
+	}
+	return unhex(r)
+}
+
 type tlr struct {
 	b  []byte
 	ok bool
@@ -564,7 +633,7 @@ func buildOracle(c *Case, o *Obs) []string {
 	// what the client was told in resPQ
 	var pqSent, srvNonceSent []byte
 	if len(o.Replies) >= 1 {
-		r := &tlr{b: unhex(o.Replies[0]), ok: true}
+		r := &tlr{b: replyBytes(o.Replies[0]), ok: true}
 		if binary.LittleEndian.Uint32(r.take(4)) == hsserver.CrcResPQ {
 			r.take(16)
 			srvNonceSent = append([]byte(nil), r.take(16)...)
@@ -602,7 +671,7 @@ func buildOracle(c *Case, o *Obs) []string {
 	}
 	// what the client was told in server_DH_inner_data: decrypt our own reply
 	if len(o.Replies) >= 2 && srvNonceSent != nil {
-		r := &tlr{b: unhex(o.Replies[1]), ok: true}
+		r := &tlr{b: replyBytes(o.Replies[1]), ok: true}
 		if binary.LittleEndian.Uint32(r.take(4)) == hsserver.CrcServerDHParamsOk {
 			r.take(32)
 			ct := r.str()
@@ -686,6 +755,12 @@ func direct(c *Case, o *Obs) (string, string) {
 		if !o.EncOpened {
 			return bad("the first encrypted request is not readable by the server: %s", o.EncErr)
 		}
+		if !o.AfterEncrypted {
+			return bad("CreateConnection succeeded but the client is not in the encrypted state")
+		}
+		if o.PostReq != "pong-ok" {
+			return bad("after a successful key exchange an ordinary request (ping, answered by the server with rpc_result{pong}) did not complete: %s", o.PostReq)
+		}
 		return "ok", ""
 	case "abort":
 		if o.Class == "ok" {
@@ -696,6 +771,9 @@ func direct(c *Case, o *Obs) (string, string) {
 		}
 		if o.EncSeen != 0 {
 			return bad("an encrypted request was sent after an abandoned key exchange")
+		}
+		if why := leftBehind(o); why != "" {
+			return bad("%s", why)
 		}
 		return "ok", ""
 	default: // any: the fault is not detectable as such; no panic/hang, and success only with agreeing secrets
@@ -713,9 +791,27 @@ func direct(c *Case, o *Obs) (string, string) {
 			if o.EncSeen != 0 {
 				return bad("an encrypted request was sent after an abandoned key exchange")
 			}
+			if why := leftBehind(o); why != "" {
+				return bad("%s", why)
+			}
 		}
 		return "ok", ""
 	}
+}
+
+// leftBehind: what an abandoned key exchange must not leave in the client (read through the verif export right after
+// CreateConnection returned its error, before the probe request)
+func leftBehind(o *Obs) string {
+	if o.AfterEncrypted {
+		return "the client is in the encrypted state after an abandoned key exchange"
+	}
+	if o.ClientKey != "-" && o.ClientKey != "" {
+		return fmt.Sprintf("an abandoned key exchange left an unauthenticated %d-byte auth key in the client (GetAuthKey; the transport would decrypt incoming packets with it)", len(unhex(o.ClientKey)))
+	}
+	if o.ClientSalt != "0000000000000000" {
+		return "an abandoned key exchange left a server salt in the client: " + o.ClientSalt
+	}
+	return ""
 }
 
 // ---------------------------------------------------------------------------------------------
@@ -763,7 +859,8 @@ func writeOutputs(cs []Case, obs []Obs, outdir string) {
 			at(o.Replies, 0), at(o.Replies, 1), at(o.Replies, 2),
 			dash(o.ClientKey), dash(o.ClientHash), dash(o.ClientSalt), dash(o.Session),
 			dash(o.SrvKey), dash(o.SrvKeyID), dash(o.SrvSalt), dash(o.SrvHash1),
-			strconv.Itoa(o.EncSeen), strconv.FormatBool(o.EncOpened), dash(o.EncPacket), fj, dash(tail(o.ErrText, 200)), dash(o.Rejected))
+			strconv.Itoa(o.EncSeen), strconv.FormatBool(o.EncOpened), dash(o.EncPacket), fj, dash(tail(o.ErrText, 200)), dash(o.Rejected),
+			dash(o.PostReq), strconv.FormatBool(o.AfterEncrypted), strconv.Itoa(o.PostPlain), strconv.FormatBool(o.HangRetried))
 
 		// model input block
 		k := testKeys[c.Key%len(testKeys)]
@@ -791,8 +888,11 @@ func writeOutputs(cs []Case, obs []Obs, outdir string) {
 				dash(c.AnswerPad), strconv.Itoa(c.GAWidth), strconv.Itoa(c.DHPrimeWidth))
 		}
 		for _, r := range o.Replies {
-			b := unhex(r)
-			mi.Line("reply", r, foreignDecodes(b))
+			if strings.HasPrefix(r, "!") {
+				mi.Line("arrival", r[1:])
+				continue
+			}
+			mi.Line("reply", r)
 		}
 		if o.EncSeen > 0 && o.EncOpened {
 			mi.Line("enc", o.EncSID, o.EncMsgID, hex.EncodeToString(hsserver.U32(o.EncSeq)), dash(o.EncBody))
@@ -854,6 +954,8 @@ func main() {
 		for _, k := range keys {
 			fmt.Printf("stat\t%s\t%d\n", k, stats[k])
 		}
+		fmt.Printf("stat\thang_verdicts_rerun_alone\t%d\n", hangRetries)
+		fmt.Printf("stat\thang_verdicts_confirmed\t%d\n", hangsConfirmed)
 	case "one":
 		data, err := ioutil.ReadFile(os.Args[2])
 		if err != nil {
